@@ -63,6 +63,7 @@ def run(repo, rep, tier):
     from . import c01
     L.borrow(repo, rep, "R04.4", "C01", c01.order, ("kind:case",))
     _string_and_import(repo, rep)
+    tales_details(repo, rep)
     _pipe(repo, rep)
     _lookup(repo, rep)
     _linear(repo, rep)
@@ -554,6 +555,27 @@ BINDERS = ("Lambda", "ListComp", "SetComp", "DictComp", "GeneratorExp",
 def _binders(repo, rep, rule="R04.6", handlers=True, only=None):
     ci = repo.cls("chameleon.astutil.NameLookupRewriteVisitor")
     site = ci.qualname
+    # names are registered in, looked up in and copied from the INNERMOST
+    # scope only: every subscript of the scope stack is [-1] (a name bound
+    # in scopes[0] or scopes[-2] leaks into the template-wide scope, or is
+    # missing from the function that binds it)
+    subs = [(m_, n) for m_ in ci.methods.values() for n in ast.walk(m_.node)
+            if isinstance(n, ast.Subscript) and src(n.value) == "self.scopes"]
+    if only is None:
+        if len(subs) < 6:
+            raise AnalysisError("scope stack subscripts vanished (%d)"
+                                % len(subs))
+        off = []
+        for m_, n in subs:
+            try:
+                k = ast.literal_eval(n.slice)
+            except ValueError:
+                k = src(n.slice)
+            if k != -1:
+                off.append("%s: self.scopes[%s]" % (m_.name, src(n.slice)))
+        rep.check(not off, rule, site, "every access to the scope stack is "
+                  "to its innermost scope (%d accesses)" % len(subs),
+                  construct="innermost-scope", detail="; ".join(off))
     for b in BINDERS:
         if only is not None and b not in only:
             continue
@@ -847,3 +869,118 @@ def _gname(pattern, gid):
         if v == gid:
             return k
     return None
+
+
+def _compiled_pattern(repo, modname, name):
+    """folded pattern of ``name = re.compile(...)`` or
+    ``name = re.compile(...).match`` in a module"""
+    mod = repo.module(modname)
+    v = mod.assigns.get(name, [None])[-1]
+    if isinstance(v, ast.Attribute) and v.attr in ("match", "search",
+                                                    "sub", "finditer"):
+        v = v.value
+    if v is None:
+        raise AnalysisError("%s.%s vanished" % (modname, name))
+    return repo.fold(v, mod)
+
+
+def tales_details(repo, rep, rule="R04.2"):
+    """Value-level obligations of the expression layer:
+    * the type-prefix and line-continuation patterns treat white space as
+      any white space; a type prefix may be a single letter;
+    * the text of a python / import expression is stripped on BOTH sides;
+    * 'No input' is raised for an EMPTY expression;
+    * the token of an unknown expression type is cut out by one group
+      (start and end of the same group);
+    * only a plain string is wrapped into a new Token (at position 0) --
+      a Token keeps its own position;
+    * a dotted name is tested for being relative by its FIRST part."""
+    T = "chameleon.tales."
+    for name, gid, least in (("match_prefix", 1, 1), ("re_continuation",
+                                                       None, None)):
+        rc = _compiled_pattern(repo, "chameleon.tales", name)
+        probs, counts = L.regex_shape(rc.pattern, rc.flags)
+        rep.check(not probs and counts["ws"] >= 1, rule, T + name,
+                  "white space in the pattern is any white space",
+                  construct="tales-space:" + name,
+                  detail="; ".join(sorted({t for k, t in probs})))
+        if gid is not None:
+            w = L.group_width(rc.pattern, rc.flags, gid)
+            rep.check(w is not None and w[0] == least, rule, T + name,
+                      "an expression type prefix is one letter or more",
+                      construct="prefix-width", detail=str(w))
+    # stripped on both sides
+    for q, var in ((T + "PythonExpr.translate", "expression"),
+                   (T + "ImportExpr.__call__", "self.expression")):
+        f = repo.func(q)
+        calls = [n for n in ast.walk(f.node) if isinstance(n, ast.Call)
+                 and isinstance(n.func, ast.Attribute)
+                 and n.func.attr in ("strip", "lstrip", "rstrip")
+                 and src(n.func.value) == var and not n.args]
+        rep.check(bool(calls) and all(c.func.attr == "strip" for c in calls),
+                  rule, q, "the expression text is stripped of white space "
+                  "on both sides before it is parsed / resolved",
+                  construct="stripped-both-sides:" + f.name,
+                  where=L.where(f), detail=str([src(c) for c in calls]))
+    # No input
+    te = repo.func(T + "TalesExpr.__call__")
+    raises = [n for n in ast.walk(te.node) if isinstance(n, ast.Raise)
+              and n.exc is not None and "No input" in src(n.exc)]
+    okn = bool(raises)
+    for r in raises:
+        gs = [(src(t), v) for t, v in L.guards_of(r, te.node)
+              if isinstance(t, ast.expr)]
+        if not L.cond_holds(gs, "remaining", False):
+            okn = False
+    rep.check(okn, rule, te.qualname, "'No input' is raised exactly when "
+              "nothing remains to be parsed", construct="no-input-guard",
+              where=L.where(te))
+    # slices by start/end of one group
+    n_sl = 0
+    bad = []
+    for q, f in sorted(repo.funcs.items()):
+        if not f.module.name.startswith("chameleon"):
+            continue
+        for n in ast.walk(f.node):
+            if isinstance(n, ast.Subscript) and isinstance(
+                    n.slice, ast.Slice) and n.slice.lower is not None and \
+                    n.slice.upper is not None:
+                lo, up = n.slice.lower, n.slice.upper
+                ok_ = all(isinstance(x, ast.Call) and isinstance(
+                    x.func, ast.Attribute) for x in (lo, up))
+                if ok_ and lo.func.attr == "start" and \
+                        up.func.attr == "end" and \
+                        src(lo.func.value) == src(up.func.value):
+                    n_sl += 1
+                    if [src(a) for a in lo.args] != [src(a)
+                                                     for a in up.args]:
+                        bad.append("%s: %s" % (f.name, src(n)))
+    rep.check(n_sl >= 1 and not bad, rule, "chameleon.*", "a text cut out "
+              "by a match is cut from the start to the end of the same "
+              "group (%d slices)" % n_sl, construct="slice-one-group",
+              detail="; ".join(bad))
+    # re-wrapping
+    se = repo.func(T + "StringExpr.__init__")
+    wraps = [n for n in ast.walk(se.node) if isinstance(n, ast.Call)
+             and src(n.func) == "Token" and len(n.args) >= 2
+             and isinstance(n.args[0], ast.Name)]
+    okw = True
+    for c in wraps:
+        gs = [(src(t), v) for t, v in L.guards_of(c, se.node)
+              if isinstance(t, ast.expr)]
+        if not L.cond_holds(gs, "isinstance(%s, Token)" % c.args[0].id,
+                            False):
+            okw = False
+    rep.check(okw, rule, se.qualname, "a string expression that is a Token "
+              "already keeps its position: only a plain str is wrapped",
+              construct="token-rewrap-guard", where=L.where(se),
+              detail=str([src(c) for c in wraps]))
+    rd = repo.func("chameleon.utils._resolve_dotted")
+    idx = [n for n in ast.walk(rd.node) if isinstance(n, ast.Subscript)
+           and src(n.value) == "name_parts"
+           and isinstance(n.slice, ast.Constant)]
+    rep.check(bool(idx) and all(n.slice.value == 0 for n in idx), rule,
+              rd.qualname, "a dotted name is relative when its FIRST part "
+              "is empty (a name without a dot has no second part)",
+              construct="relative-name-first-part", where=L.where(rd),
+              detail=str([src(n) for n in idx]))
